@@ -1,4 +1,6 @@
 import FsDb.Properties.C05
+import FsDb.Proofs.Crash
+import FsDb.Model.Persist
 /-!
 # C04 — A crash at any point loses nothing acknowledged, exposes nothing uncommitted
 
@@ -8,11 +10,18 @@ What is a theorem here and what is enumeration:
   process after the acknowledged operations (optionally plus the operation in flight): the committed
   history is kept, every open transaction is gone (`C04_recovered_state`); a second reopen changes
   nothing (`C04_reopen_idempotent`);
-* that the real system reaches one of these two states from EVERY cut of its persistent-mutation
-  sequence is decided by exhaustive crash-point enumeration on the real code (SIGKILL before every
+* on the concrete model every operation changes the persistent store (version records, content
+  records) by a sequence of mutations; `crashPoints c op` lists the states between them.
+  `C04_crash_cut`: in every reachable state, for every operation and EVERY cut, recovery in a fresh
+  process reads exactly the acknowledged state or that plus the whole operation in flight -- for all
+  keys at once, also when the recovery itself is cut and repeated (`C04_crash_in_recovery`);
+* that the real system's mutations come in the modelled order (content file, fileContent record,
+  version record; one Badger transaction per commit; removal in the reverse order) is tied by the
+  skeleton texts, by the per-content-id lifecycle check of the observed mutation traces
+  (`Persist.ok`), and by exhaustive crash-point enumeration on the real code (SIGKILL before every
   mutation of every workload; thorough tier: also before every mutation of the recovery), with the
-  allowed states computed by this specification through the driver.  A proof over a mutation-trace
-  model of Badger + files is not built (see DESIGN.md, C04: claimed as fault enumeration).
+  allowed states computed by this specification through the driver.  Badger's atomic, kill-durable
+  transaction and the prefix semantics of file writes are trusted.
 -/
 namespace FsDb.C04
 open FsDb Spec
@@ -53,5 +62,91 @@ theorem C04_commit_all_or_nothing (s : State) (t : Nat) :
         split at heq
         · cases heq
         · exact heq
+
+/-- **Crash at any cut.**  `c` any state related to a specification state (every reachable state
+    is: `C04_reachable`), `op` any operation, `p` any state in which the persistent store can be
+    found when the process dies during `op`.  Then after recovery in a fresh process every key reads
+    as in the specification after the acknowledged operations (`s`) or as after those plus the whole
+    operation in flight -- the same alternative for all keys and for GetKeys; nothing of an
+    uncommitted transaction is visible (the recovered specification state has no open transaction);
+    and recovering a second time reads the same. -/
+theorem C04_crash_cut {c : Sys} {s : State} (h : R c s) (ri : RecInv c) (op : Op) (hop : op.total = true)
+    (p : Sys) (hp : p ∈ crashPoints c op) :
+    ∃ s', (s' = s ∨ s' = (Spec.step s op).1) ∧
+      (∀ k, (p.reopen true).1.get mainTx k = Spec.get (Spec.reopen s' true).1 mainTx k) ∧
+      (p.reopen true).1.getKeys mainTx = Spec.getKeys (Spec.reopen s' true).1 mainTx ∧
+      (Spec.reopen s' true).1.open_ = [] ∧
+      (∀ k, ((p.reopen true).1.reopen true).1.get mainTx k = (p.reopen true).1.get mainTx k) := by
+  obtain ⟨hr, hri⟩ := crashPoints_ok h ri op hop p hp
+  have key : ∀ s', R p s' →
+      (∀ k, (p.reopen true).1.get mainTx k = Spec.get (Spec.reopen s' true).1 mainTx k) ∧
+      (p.reopen true).1.getKeys mainTx = Spec.getKeys (Spec.reopen s' true).1 mainTx ∧
+      (Spec.reopen s' true).1.open_ = [] ∧
+      (∀ k, ((p.reopen true).1.reopen true).1.get mainTx k = (p.reopen true).1.get mainTx k) := by
+    intro s' hs'
+    have h1 := R.reopen hs' hri true
+    have ri1 := RecInv.reopen hs'.inv hri true
+    refine ⟨fun k => get_eq h1 mainTx k, getKeys_eq h1 mainTx, rfl, ?_⟩
+    intro k
+    exact (C05.C05_durable_concrete h1 ri1 true k).1
+  rcases hr with hr | hr
+  · exact ⟨s, Or.inl rfl, key s hr⟩
+  · exact ⟨_, Or.inr rfl, key _ hr⟩
+
+/-- a crash during recovery: recovery's own persistent mutations are the deletions it hands to the
+    worker pool; cutting them anywhere and recovering again reads the same -/
+theorem C04_crash_in_recovery {c : Sys} {s : State} (h : R c s) (ri : RecInv c)
+    (p : Sys) (hp : p ∈ crashPoints (c.reopen true).1 .drain) (k : Key) :
+    (p.reopen true).1.get mainTx k = Spec.get (Spec.reopen s true).1 mainTx k := by
+  have h1 := R.reopen h ri true
+  have ri1 := RecInv.reopen h.inv ri true
+  obtain ⟨s', hs', hget, _⟩ := C04_crash_cut h1 ri1 .drain rfl p hp
+  rw [hget k]
+  rcases hs' with rfl | rfl
+  · exact (C05.C05_reopen_reads _ true k).1
+  · exact (C05.C05_reopen_reads _ true k).1
+
+/-- every state reached by any history (reopenings included) qualifies -/
+theorem C04_reachable (ops : List Op) (hops : ∀ op ∈ ops, op.total = true) :
+    R (({} : Sys).run ops).1 (Spec.run {} ops).1 ∧ RecInv (({} : Sys).run ops).1 :=
+  (Refine.run_all R.init RecInv.init ops hops).2
+
+/-- the crash points of a Set are one mutation apart: first the fileContent record (the content
+    file is complete by then), then the version record -/
+theorem C04_set_points (c : Sys) (t : Nat) (k : Key) (n : Nat) (hg : ¬ ((c.regGet t).isNone ∨ k = "")) :
+    ∃ p1 p2, crashPoints c (.set t k n) = [c, p1, p2] ∧
+      p1.recs = c.recs ∧ p1.cfs = c.cfs ++ [(c.nextCid, n)] ∧
+      p2.cfs = p1.cfs ∧ p2.recs = c.recs ++ [⟨k, t, c.nextCid, c.counter + 1, some n⟩] := by
+  refine ⟨preStore c [(c.nextCid, n)], (c.set t k n).1, by simp only [crashPoints, if_neg hg], rfl, rfl, ?_, ?_⟩
+  · have : (c.set t k n).1 = afterStore c [(c.nextCid, n)] t k (some n) := by
+      simp only [not_or] at hg
+      simp [Sys.set, hg.1, hg.2, afterStore, preStore]
+    rw [this, after_cfs]; rfl
+  · have : (c.set t k n).1 = (preStore c [(c.nextCid, n)]).coreStore t k c.nextCid (some n) := by
+      simp only [not_or] at hg
+      simp [Sys.set, hg.1, hg.2, preStore]
+    rw [this, coreStore_recs]; rfl
+
+/-- the crash points of a deletion are one mutation apart: content + fileContent record, then the
+    version record -/
+theorem C04_delete_points (s : Sys) (v : Ver) (n : Nat) (hc : s.hasContent v.cid = some n) (vs : List Ver) :
+    delPoints s (v :: vs) = s :: delCf s v :: delPoints (delRec (delCf s v) v) vs ∧
+    (delCf s v).recs = s.recs ∧ (delRec (delCf s v) v).cfs = (delCf s v).cfs := by
+  simp [delPoints, hc, delCf, delRec]
+
+/-- the modelled order per content id: the two complete lifecycles are accepted, every prefix of
+    them too (a crash stops a lifecycle anywhere), and the orders that would expose a partial
+    content or lose a live one are not -/
+example : Persist.ok [.file, .cf, .vrec, .vrec, .rm, .delcf, .delrec] = true := by decide
+example : Persist.ok [.vrec, .vrec] = true := by decide
+example : Persist.ok [.file, .cf] = true := by decide
+example : Persist.ok [.file, .vrec] = false := by decide      -- version record before the fileContent record
+example : Persist.ok [.cf] = false := by decide              -- fileContent record before the file is complete
+example : Persist.ok [.file, .cf, .vrec, .delrec] = false := by decide
+example : Persist.ok [.file, .cf, .vrec, .delcf] = false := by decide
+
+/-- non-vacuity of the cut theorem: a history, a Set in flight, all three crash points -/
+example : (crashPoints ((({} : Sys).run [.set 0 "a" 1, .begin 1 .rc, .set 1 "b" 2]).1) (.set 0 "a" 3)).length = 3 := by
+  decide
 
 end FsDb.C04
